@@ -155,6 +155,8 @@ def gen_plan(rng, tier, config, opts):
     elif start == 'init':
         lines.append(dev_line())
         lines.append('INIT')
+    if rng.chance(0.4):
+        lines.append('CTXFILL %d' % rng.choice([0xA5, 0xFF, 1, 0x5A, rng.randint(1, 255)]))   # what the second context's storage holds before its first use
     long_used = False
     for _ in range(nops):
         if profile == 'genheavy':
